@@ -400,18 +400,43 @@ def bfs(ctx, spec, depth, label=None, time_cap=None, max_min=300):
   items = [(spec.name, v["hist"], v["clause"]) for v in todo.values()]
   ctx.extra.setdefault('violating_transitions', 0)
   ctx.extra['violating_transitions'] += len(raw)
-  if len(items) > max_min:
-    ctx.cap("{}: {} violating transitions, only the first {} minimised".format(
-        label, len(items), max_min))
-    ctx.overflow = True
-    items = items[:max_min]
-  for clause, m, det in ctx.pmap(minimise_item, items, chunksize=1):
-    hs = " ; ".join(fmt_op(o) for o in m)
-    ctx.violation(mkviolation(
-        clause, {"spec": label, "history": hs},
-        {"spec": spec.name, "hist": [list(o) for o in m], "clause": clause},
-        "invariant / reference-model agreement", det[:5],
-        standalone(spec, m)))
+  # shortest histories first, one round per length: a history that contains
+  # an already minimised violating history (same clause) as a subsequence is
+  # explained by it -- that is one of the 1-minimal results ddmin could have
+  # returned for it -- and is not minimised again
+  def subseq(a, b):
+    it = iter(b)
+    return all(any(x == y for y in it) for x in a)
+  minimal = []          # (clause, [ops as lists])
+  explained = 0
+  budget = max_min
+  by_len = {}
+  for it in items:
+    by_len.setdefault(len(it[1]), []).append(it)
+  for n in sorted(by_len):
+    todo_n = []
+    for it in by_len[n]:
+      ops = [list(o) for o in it[1]]
+      if any(c == it[2] and subseq(m, ops) for c, m in minimal):
+        explained += 1
+      else:
+        todo_n.append(it)
+    if len(todo_n) > budget:
+      ctx.cap("{}: {} violating transitions of length {} left, only {} "
+              "minimised".format(label, len(todo_n), n, budget))
+      ctx.overflow = True
+      todo_n = todo_n[:budget]
+    budget -= len(todo_n)
+    for clause, m, det in ctx.pmap(minimise_item, todo_n, chunksize=1):
+      hs = " ; ".join(fmt_op(o) for o in m)
+      minimal.append((clause, [list(o) for o in m]))
+      ctx.violation(mkviolation(
+          clause, {"spec": label, "history": hs},
+          {"spec": spec.name, "hist": [list(o) for o in m], "clause": clause},
+          "invariant / reference-model agreement", det[:5],
+          standalone(spec, m)))
+  ctx.extra.setdefault('violating_transitions_explained_by_shorter', 0)
+  ctx.extra['violating_transitions_explained_by_shorter'] += explained
   return completed, len(seen)
 
 
